@@ -411,6 +411,12 @@ def judge(h, box, res, rep, case):
             ver = int(pl[pl.index(b";ver=") + 5 :]) if b";ver=" in pl and pl.startswith(b"rid=") else None
             rend = [x for x in renders if x["ver"] == ver and x["seq"] <= e.seq] if ver is not None else []
             queued = bool(rend) and rend[-1]["t"] <= E[0] + 1e-9
+            if queued and E[2] in ("unsuccessful", "last", "first-response-unsuccessful"):
+                # The registration ends WITH its unsuccessful / last notification. What was rendered before that one
+                # and waits ahead of it in the same per-endpoint queue goes out before it, i.e. before the end (the
+                # terminating message itself may never make it to the wire when the exchange ahead times out).
+                rep.count("queued_ahead_of_the_terminating_notification")
+                continue
             key = "queued-notification-sent-after-end" if queued else "notification-after-end/%s" % E[2]
             if E[2] == "rst-non":
                 # the Reset to a NON notification had no effect at all (known mechanism); whatever ended the
